@@ -25,6 +25,23 @@ claim("C11", "other",
   "Value-level behaviour of thrift decoding on garbage is outside this technique; no magic-number check exists in the reader.",
   "static analysis: error-propagation check restricted to the footer path + SSA dominator check (footer before first column read)", "DESIGN.md §5 C11")
 
+claim("C06", "other",
+  "Two clauses of C06 decided as structural necessary conditions, for all histories at once: (WH-empty) a Write with nothing pending puts nothing on the stream — every sink-touching call site reachable from Write is guarded by a rows-pending test; (WH-rows) the footer's file-level row count is computed from the row groups emitted, never from an Add-time counter. The rest of C06 (one row group per batch, exact-multiple batches, ordering) needs model exploration and is NOT decided.",
+  "Reader is sequential from byte 4 (template fact). Guards recognised by SSA dominance; quantities discovered from what Add increments/appends.",
+  "static analysis: must-be-guarded (dominator) check on sink-touching call sites + backward data-flow slice of the NumRows store over go/ssa", "DESIGN.md §4 WH, §5 C06")
+claim("C12", "other",
+  "Complete structural soundness argument for the accumulators of every parquet.Stats implementation in the instantiated templates (8 element types x required/optional): monotone guarded updates (ST1), every value reaches both updates (ST2), comparison order = column order via the declared physical/converted type (ST3), Min/Max serialise their own field bit-preservingly (ST4), absence keyed on a value-only counter/flag (ST5), exact null counter under def < maxDef (ST6). Holds for every value multiset incl. NaN, extremes, arbitrary byte strings.",
+  "Trusted: thrift serialisation of the Statistics struct; one stats object per page (template-fixed). Required columns' absence on empty pages relies on WH-empty, re-checked here.",
+  "static analysis: per-store guard classification on go/ssa (dominators, cut-set path checks) + encoding/table agreement checks", "DESIGN.md §4 ST, §5 C12")
+claim("C13", "other",
+  "Sufficient structural condition for the whole property: pooled buffers never outlive their Get..Put window and their stale contents are never observable (PO1-3, alias/escape analysis with callee summaries), all package-level variables are concurrency-safe pools or frozen (GL), and nothing reachable from the API uses goroutines, channels, map iteration, clock, randomness, environment, unsafe, reflect or %p (ND). Covers all interleavings and all prior pool histories at once.",
+  "Trusted: thread-safety and determinism of thrift serialisation, snappy, gzip, bytebufferpool; io.Writer does not retain/modify p.",
+  "static analysis: SSA alias/escape analysis of pooled buffers with interprocedural summaries, global-mutation walk, reachability scan for nondeterminism sources", "DESIGN.md §4 PO/GL/ND, §5 C13")
+claim("C17", "proof",
+  "Exact decision of C17 for every 8-tuple of W-bit values, W=1..4, and every W-byte group: a bit-provenance abstract interpretation evaluates each output bit of pack_W/unpack_W to a single input bit; 336 bit obligations + lengths + mutual-inverse check + dispatch + call-site obligations, all must discharge.",
+  "Trusted base: go/parser, go/types, go/constant; ~80 lines of transfer functions for & | ^ &^ << >> and integer conversion in /verif/checker/bp.go.",
+  "static analysis: bit-provenance abstract interpretation over go/ast + go/types", "DESIGN.md §4 BP, §5 C17")
+
 NA_DEFAULT = "check not built yet (static-analysis framework under construction, see DESIGN.md §9)"
 NA = {}
 checks = []
